@@ -215,6 +215,7 @@ class Fixture(object):
             "sent": sorted(r for r, _ in self.sent_requests()),
             "nchan": len(self.replied) - sum(1 for (who, n) in self.net.a.read_log if n != 5),
             "ready": {r: self.is_ready(r) for t in self.reqs for r in self.reqs[t]},
+            "transit": len(conn._replies_in_transit) if hasattr(conn, "_replies_in_transit") else None,
         }
 
     def close(self):
@@ -353,6 +354,16 @@ def run_impl(reqs, bg, chooser, lines=False, max_steps=6000, max_bg_loops=12, eo
                 ev["recvlock"] = fx.owner(fx.conn._recvlock)
                 ev["condlock"] = fx.owner(fx.conn._recv_event._lock)
             trace.append(ev)
+        if callbacks and fx.bg is not None:
+            # the clients have their results; the background thread may still be inside the dispatch of the last reply (the
+            # callbacks run after the result is published): let it finish that before the callbacks are counted
+            for _ in range(400):
+                if fx.bg.done or fx.bg.pending.kind == "sleep":
+                    break
+                mine = [c for c in thread_choices(s) if c[0] is fx.bg]
+                if not mine:
+                    break
+                s.step(*mine[0])
         out = {"trace": trace, "stalls": stalls, "problems": problems, "outcome": dict(fx.outcome), "eof": eof_done,
                "cb_log": list(fx.cb_log), "callbacks": callbacks,
                "closed": bool(getattr(fx.conn, "closed", False)),
@@ -821,6 +832,8 @@ def compare(fx, st):
     for r, v in p["ready"].items():
         if v != st["ready"][r]:
             return "ready[%s] %s vs spec %s" % (r, v, st["ready"][r])
+    if p["transit"] is not None and "transit" in st and p["transit"] != st["transit"]:
+        return "replies in transit %s vs spec %s" % (p["transit"], st["transit"])
     for t in fx.sched.threads:
         k = fx.kind(t)
         pc = st["pc"][t.name]
